@@ -651,14 +651,14 @@ func finish(prop, tier string, seed int, files []*harnessFile, results []*entryR
 			}
 		}
 		for _, w := range r.ex.Witnesses {
-			witnesses = append(witnesses, pending{r, &sym.Cex{Entry: w.Entry, Table: w.Table, Note: w.Status + "|" + strings.Join(w.Obs, ";")}})
+			witnesses = append(witnesses, pending{r, &sym.Cex{Entry: w.Entry, Table: w.Table, Note: w.Status + "|" + strings.Join(w.Obs, ";"), Implicit: w.Approx}})
 		}
 	}
 	// native replays, grouped by harness package
 	violations := []string{}
 	knownHits := map[string]string{}
 	spurious := []string{}
-	witnessOK, witnessBad := 0, 0
+	witnessOK, witnessBad, witnessApprox := 0, 0, 0
 	replayDir := filepath.Join(verifRoot, "replays", prop)
 	type grpKey struct{ dir, mod, repl string }
 	grpRepl := map[grpKey]map[string]string{}
@@ -697,6 +697,8 @@ func finish(prop, tier string, seed int, files []*harnessFile, results []*entryR
 					wantStatus, wantObs := sp[0], sp[1]
 					if o.Status == wantStatus && strings.Join(o.Obs, ";") == wantObs && len(o.Failed) == 0 {
 						witnessOK++
+					} else if p.cex.Implicit {
+						witnessApprox++
 					} else {
 						witnessBad++
 						inconclusive = append(inconclusive, fmt.Sprintf("%s: path witness disagrees with native run (engine: %s [%s]; native: %s [%s] failed=%v panic=%q) table=%s", p.cex.Entry, wantStatus, wantObs, o.Status, strings.Join(o.Obs, ";"), o.Failed, o.Panic, compact(p.cex.Table)))
@@ -804,6 +806,7 @@ func finish(prop, tier string, seed int, files []*harnessFile, results []*entryR
 			"transitions":                   totalSteps,
 			"traces_validated_against_impl": witnessOK,
 			"witness_disagreements":         witnessBad,
+			"witness_mismatches_on_overapproximated_paths": witnessApprox,
 			"obligations":                   nObl,
 			"discharged":                    nDis,
 			"sat":                           nSat,
